@@ -19,6 +19,11 @@ let handle = function
     let w = { w_env = unhexlist env; w_file = unhex_opt file; w_argv = unhexlist_opt argv } in
     if spec_det ec dc cc w (n_of_string bs) (n_of_string th) (unhex fmt) (unhex out) then "ok" else "bad"
   (* cmdline size filename argv -> ok <hex> *)
+  (* generr <as gen> -> ok <number of refused appends> *)
+  | ["generr"; bs; th; fmt; file; argv; env] ->
+    let w = { w_env = unhexlist env; w_file = unhex_opt file; w_argv = unhexlist_opt argv } in
+    let rec nat_to_int = function O -> 0 | S n -> 1 + nat_to_int n in
+    "ok\t" ^ string_of_int (nat_to_int (errors_det ec dc cc w (n_of_string bs) (n_of_string th) (unhex fmt)))
   | ["cmdline"; sz; file; argv] ->
     "ok\t" ^ hex (cmdline cc (unhex_opt file) (unhexlist_opt argv) (n_of_string sz))
   | ["filename"; sz; file] ->
